@@ -46,7 +46,110 @@ func TestC11(t *testing.T) {
 		if rec.Mine(c + 2) {
 			unloadedWhilePending(rec, c)
 		}
+		if rec.Mine(c + 4) {
+			refusedWriteWithAReplicaDown(rec, c)
+		}
 	}
+}
+
+// A write that the partition refuses (an insert of an id it holds, a removal or update of an id it does not hold) is
+// not applied, so it must not be acknowledged - also when it enters through a node that does not host the partition
+// and one of the three replicas is down, so that the entry node's first choice of replica may be unreachable while
+// another one answers.
+func refusedWriteWithAReplicaDown(rec *mon.Recorder, c int) {
+	rng := rec.Rand("c11-refused", c)
+	desc := fmt.Sprintf("refused-write-with-a-replica-down case=%d nodes=4 partitions=1 replication=3", c)
+	rec.Current(desc)
+	cl := sim.New(sim.Options{Nodes: 4, Dir: os.Getenv("VERIF_SCRATCH") + fmt.Sprintf("/c11r-%d", c), TickEvery: 10 * time.Millisecond, Seed: rec.Seed() + int64(c)})
+	defer cl.Close()
+	if err := cl.Start(); err != nil {
+		rec.Inconclusive(desc + ": cluster start: " + err.Error())
+		return
+	}
+	dsId, meta, err := cl.CreateDataset(0, 3, 1, 3, pb.Space_Euclidean)
+	if err != nil || len(meta.Partitions) != 1 || len(meta.Partitions[0].NodeIds) != 3 {
+		rec.Inconclusive(fmt.Sprintf("%s: create dataset: %v", desc, err))
+		return
+	}
+	hosts := map[uint64]bool{}
+	for _, id := range meta.Partitions[0].NodeIds {
+		hosts[id] = true
+	}
+	var entry *sim.Node
+	var replicas []*sim.Node
+	for _, n := range cl.Nodes {
+		if hosts[n.Id] {
+			replicas = append(replicas, n)
+		} else {
+			entry = n
+		}
+	}
+	if entry == nil {
+		rec.Inconclusive(desc + ": no node without a replica")
+		return
+	}
+	ctx := context.Background()
+	held := []uuid.UUID{}
+	for i := 0; i < 6; i++ {
+		id := hx.Id(c*100000 + 70000 + i)
+		cctx, cancel := context.WithTimeout(ctx, 5*time.Second)
+		err := entry.Dataset(dsId).Insert(cctx, id, []float32{float32(i), 2, 3}, nil)
+		cancel()
+		if err != nil {
+			rec.Inconclusive(fmt.Sprintf("%s: insert with every replica up: %v", desc, err))
+			return
+		}
+		held = append(held, id)
+	}
+	down := replicas[rng.Intn(3)]
+	cl.Crash(down.Idx)
+	cl.Teardown(down.Idx) // its port is closed: calls to it fail at the connection
+	replay := map[string]interface{}{"case": c, "seed": rec.Seed(), "desc": desc, "entry": entry.Id, "replica_down": down.Id}
+	cc, derr := grpc.Dial(entry.Addr, grpc.WithInsecure())
+	if derr != nil {
+		rec.Inconclusive(desc + ": dial: " + derr.Error())
+		return
+	}
+	defer cc.Close()
+	dmc := pb.NewDataManagerClient(cc)
+	for round := 0; round < 24; round++ {
+		op := []string{"insert-of-a-held-id", "remove-of-an-absent-id", "update-of-an-absent-id"}[round%3]
+		absent := hx.Id(c*100000 + 80000 + round)
+		cctx, cancel := context.WithTimeout(ctx, 5*time.Second)
+		var err error
+		viaGrpc := round%2 == 1
+		switch {
+		case op == "insert-of-a-held-id" && viaGrpc:
+			_, err = dmc.Insert(cctx, &pb.InsertRequest{DatasetId: dsId.Bytes(), Id: held[round%len(held)].Bytes(), Value: []float32{9, 9, 9}})
+		case op == "insert-of-a-held-id":
+			err = entry.Dataset(dsId).Insert(cctx, held[round%len(held)], []float32{9, 9, 9}, nil)
+		case op == "remove-of-an-absent-id" && viaGrpc:
+			_, err = dmc.Remove(cctx, &pb.RemoveRequest{DatasetId: dsId.Bytes(), Id: absent.Bytes()})
+		case op == "remove-of-an-absent-id":
+			err = entry.Dataset(dsId).Remove(cctx, absent)
+		case viaGrpc:
+			_, err = dmc.Update(cctx, &pb.UpdateRequest{DatasetId: dsId.Bytes(), Id: absent.Bytes(), Value: []float32{9, 9, 9}})
+		default:
+			err = entry.Dataset(dsId).Update(cctx, absent, []float32{9, 9, 9}, nil)
+		}
+		cancel()
+		rec.Count("refused_writes_with_a_replica_down", 1)
+		if err == nil {
+			rec.Violation("ack:success-for-a-refused-write:"+op, fmt.Sprintf("%s: %s through node %d (which hosts no replica; replica on node %d is down) was acknowledged although the partition refuses it and nothing was applied", desc, op, entry.Id, down.Id), replay)
+			return
+		}
+	}
+	// what the partition holds is what was acknowledged: the six items, unchanged
+	for _, n := range replicas {
+		if n == down {
+			continue
+		}
+		if idx := n.PartitionIndex(dsId, uuid.FromBytesOrNil(meta.Partitions[0].Id)); idx != nil && idx.Len() != len(held) {
+			rec.Violation("ack:refused-write-applied", fmt.Sprintf("%s: the replica on node %d holds %d items, %d were acknowledged", desc, n.Id, idx.Len(), len(held)), replay)
+			return
+		}
+	}
+	rec.Case(mon.Digest(desc), true)
 }
 
 // Writes that raft has accepted but cannot commit (the only other replica is down) are still waiting for their
